@@ -301,7 +301,7 @@ PROPS = {
         assumptions=['the transport keeps moving bytes (flow mode) while the probe runs'],
     ),
     "C12": dict(
-        modules=['Drpc.Props.C12', 'Drpc.Props.Manager', 'Drpc.Tie.Manager'],
+        modules=['Drpc.Props.C12', 'Drpc.Props.Manager', 'Drpc.Props.Serve', 'Drpc.Tie.Manager'],
         suites=['e2e'],
         rule='e2e suite, families close+fault: random workloads of 1-2 RPCs driven over a manually stepped transport; at transport step k (every k in the thorough tier, a sample in quick) Conn.Close / server context cancellation / an external transport break is issued; after the transport lets go: Close has returned, the transport end was closed exactly once by the library, every call has returned, no goroutine with a storj.io/drpc frame is left',
         trusted=COMMON_TRUST + ["Go runtime (goroutines, sync, channels) trusted; the two-endpoint behaviour is explored, not modelled: "
